@@ -74,7 +74,7 @@ def synthetic_results(seed, base):
     res0 = base["results"][min(base["results"])]
     data = res0["data"]
     n = len(data)
-    kind = r.choice(["pool", "pool", "ties", "all_outliers", "single_clone", "nested"])
+    kind = r.choice(["pool", "pool", "ties", "all_outliers", "single_clone", "nested", "many", "spread"])
     pool = []
     if kind == "all_outliers":
         pool = [Forest((), (), frozenset(range(n)))] + [random_forest(r, n) for _ in range(r.choice([0, 1, 2]))]
@@ -82,6 +82,8 @@ def synthetic_results(seed, base):
         pool = [Forest((frozenset(range(n)),), (-1,), frozenset())] + [random_forest(r, n) for _ in range(r.choice([0, 1]))]
     elif kind == "nested" and nested_majority_pool(n):
         pool = r.choice(nested_majority_pool(n))
+    elif kind == "many":
+        pool = [random_forest(r, n) for _ in range(r.choice([11, 14, 20]))]  # ten or more distinct topologies (ids t_10, t_11, ...)
     else:
         pool = [random_forest(r, n) for _ in range(r.choice([1, 2, 3, 5]))]
     k = r.choice([1, 2, 3, 4])
@@ -93,7 +95,7 @@ def synthetic_results(seed, base):
     forms = set()
     for ch in chain_order:
         trace = []
-        for i in range(r.choice([1, 2, 4, 8, 15]) if kind != "nested" else r.choice([3, 6, 12])):
+        for i in range((r.choice([1, 2, 4, 8, 15]) if kind != "many" else r.choice([15, 25, 40])) if kind != "nested" else r.choice([3, 6, 12])):
             if kind == "nested":
                 f = pool[i % len(pool)]
             else:
@@ -106,6 +108,8 @@ def synthetic_results(seed, base):
             lp1 = float(td.log_p_one(t))
             if kind == "ties":
                 lp1 = float(round(lp1))  # exact ties between different forms
+            if kind == "spread":
+                lp1 = lp1 * 60.0  # scores so far apart that weights underflow against each other
             trace.append({"iter": i, "time": 0.0, "alpha": alpha, "log_p_one": lp1, "tree": t.to_dict()})
             forms.add(models.canon(f))
         entry = {"data": data, "samples": res0["samples"], "trace": trace, "chain_num": ch}
@@ -484,7 +488,7 @@ def summary_task(item):
                     if o["ok"]:
                         probs += check_table(res_p, o["table"], o["newick"], "map")
                         probs += check_table_values(res_p, o["table"], o["newick"], "map")
-            top = r.choice([None, 1, 2, 100])
+            top = r.choice([None, 1, 2, 3, 5, 11, 100])
             o = wp.run_summaries(img, ("topology", top, True))
             out["commands"] += 1
             if prop == "C11":
